@@ -4,6 +4,7 @@ import (
 	"context"
 
 	"github.com/relab/gorums/ordering"
+	"google.golang.org/protobuf/proto"
 )
 
 // Multicast is a one-way call; no replies are processed.
@@ -22,7 +23,9 @@ func (c RawConfiguration) Multicast(ctx context.Context, d QuorumCallData, opts 
 	for _, n := range c {
 		msg := d.Message
 		if d.PerNodeArgFn != nil {
-			msg = d.PerNodeArgFn(d.Message, n.id)
+			// the per-node function gets a copy of its own: it may fill in the
+			// request and return it, and the messages are marshaled later.
+			msg = d.PerNodeArgFn(proto.Clone(d.Message), n.id)
 			if !msg.ProtoReflect().IsValid() {
 				continue // don't send if no msg
 			}
